@@ -218,14 +218,11 @@ func (r Result) AsSlice() ([]any, bool) {
 		return slice, true
 	}
 
-	// Try to convert using ToSlice
-	result := ToSlice(r.value)
-	// ToSlice wraps non-slice values, so check if it's actually a slice
-	if len(result) == 1 && result[0] == r.value {
-		// ToSlice wrapped a non-slice value
+	// ToSlice wraps non-slice values, so only hand real slices to it
+	if reflect.ValueOf(r.value).Kind() != reflect.Slice {
 		return nil, false
 	}
-	return result, true
+	return ToSlice(r.value), true
 }
 
 // AsSliceOr retrieves the Result as a []any slice.
